@@ -243,10 +243,11 @@ def compare(prim, results, fields_by_prop, monitors_wanted):
                 counts["ops"] += 1
             if len(samples) < 3 and len(path) >= 6 and not stack:
                 samples.append({"history": [new_line] + list(path), "last_obs": rest})
-            for m in mons:
+            for mfull in mons:
+                m = mfull.split(":")[0]
                 if m in monitors_wanted and (m + "#monitor") not in found:
                     found[m + "#monitor"] = {"kind": "monitor", "gen": g, "history": [new_line] + list(path),
-                                             "impl": rest, "model": b, "what": "monitor %s hit on the implementation" % m}
+                                             "impl": rest, "model": b, "what": "monitor %s hit on the implementation" % mfull}
             if rest != b:
                 di, dm = parse_obs(rest), parse_obs(b)
                 for p, fields in fields_by_prop.items():
@@ -303,6 +304,7 @@ def search_failing(prim, prop, corr, mons, seed, budget_s=90):
                 path.append(op)
             if " M!" in rest:
                 rest, _, ms = rest.partition(" M!")
+                ms = ",".join(x.split(":")[0] for x in ms.split(","))
                 if any(m in mons for m in ms.split(",")):
                     return {"kind": "monitor", "gen": g, "history": [new_line] + list(path), "impl": rest,
                             "what": "monitor %s hit on the implementation" % ",".join(sorted(set(ms.split(",")) & set(mons)))}
@@ -314,7 +316,12 @@ def gens_for(prim, tier, seed):
     t = spec[tier]
     gens = []
     for nl in spec["new_lines"]:
-        gens.append(["dfs", str(t["depth"])] + nl.split())
+        if "beam" in t:
+            # exhaustive DFS, then exhaustive DFS again from the most contended states it reached
+            w, r, d = t["beam"]
+            gens.append(["beam", str(t["depth"]), str(w), str(r), str(d)] + nl.split())
+        else:
+            gens.append(["dfs", str(t["depth"])] + nl.split())
     gens.append(["random", prim, str(seed), str(t["random_count"]), str(t["random_len"])])
     return gens
 
